@@ -161,8 +161,11 @@ func (P *Prog) lemmaVCs(lm *Lemma) ([]*VC, error) {
 			return nil, fmt.Errorf("lemma %s hint: %v", lm.Name, err)
 		}
 		// mention the term so that E-matching sees it
-		fx := fmt.Sprintf("(assert (= %s %s))\n", v.T.S, v.T.S)
-		body.WriteString(fx)
+		hf := map[string]string{"Int": "hintI", "Str": "hintS", "Bool": "hintB"}[v.T.Sort]
+		if hf == "" {
+			return nil, fmt.Errorf("lemma %s hint: unsupported sort %s", lm.Name, v.T.Sort)
+		}
+		body.WriteString(fmt.Sprintf("(assert (%s %s))\n", hf, v.T.S))
 	}
 	var vcs []*VC
 	for i, e := range lp.ens {
